@@ -13,7 +13,8 @@ RULE = (
     "detached option value, a multi-valued argument, a '--' tail) x 3 Hypothesis-drawn placements of the switches among "
     "the tokens after the command path (all placements for subsets of size <= 2 in the thorough tier) x handler that "
     "writes one tagged line per message level to both streams, asks four questions with defaults (plain, choice, "
-    "confirmation, converting validator) and optionally raises; "
+    "confirmation, converting validator), writes to a section it creates from the output (overwrite + one line per "
+    "level) and optionally raises; "
     "plus the same switch tokens copied after '--'; tree: Hypothesis command trees with a valid generated line for one "
     "of their commands (any depth, default sub-commands, aliases) and 1-4 switches inserted after the path; every run on a "
     "drawn pair of output/error streams that do or do not claim ANSI support; session: 2-4 runs (0-2 switches each, own "
@@ -70,6 +71,19 @@ def ask_all(io):
     return answers
 
 
+def emit(io):
+    """What every handler writes: one tagged line per message level on both streams, then a section that is
+    overwritten (raw cursor-control codes when, and only when, the I/O is decorated)."""
+    for name, flag, _ in LEVELS:
+        io.write_line(L + "info" + G + "out-" + name + L + "/info" + G, flag)
+        io.error_line(L + "info" + G + "err-" + name + L + "/info" + G, flag)
+    section = io.output.section()
+    section.write_line("sec-first")
+    section.overwrite("sec-second")
+    for name, flag, _ in LEVELS:
+        section.write_line("sec-" + name, flag)
+
+
 def build_app(log, raising):
     from clikit.api.args.format import Argument, Option
     from clikit.api.config.command_config import CommandConfig
@@ -83,9 +97,7 @@ def build_app(log, raising):
                         "interactive": io.is_interactive(),
                         "args": args.arguments(False), "opts": {k: v for k, v in args.options(False).items()
                                                                 if k in ("foo", "bar")}})
-            for name, flag, _ in LEVELS:
-                io.write_line(L + "info" + G + "out-" + name + L + "/info" + G, flag)
-                io.error_line(L + "info" + G + "err-" + name + L + "/info" + G, flag)
+            emit(io)
             log[-1]["answer"] = ask_all(io)
             if raising:
                 raise ValueError("boom from handler")
@@ -124,9 +136,7 @@ def build_tree_app(tree, log, raising):
                 log.append({"cmd": command.full_name, "quiet": io.is_quiet(), "verbosity": io.verbosity,
                             "interactive": io.is_interactive(), "args": args.arguments(False),
                             "opts": {k: v for k, v in args.options(False).items() if k not in switch_names}})
-                for name, flag, _ in LEVELS:
-                    io.write_line(L + "info" + G + "out-" + name + L + "/info" + G, flag)
-                    io.error_line(L + "info" + G + "err-" + name + L + "/info" + G, flag)
+                emit(io)
                 log[-1]["answer"] = ask_all(io)
                 if raising:
                     raise ValueError("boom from handler")
@@ -285,7 +295,7 @@ def judge(ctx, case, line, tokens, kinds, res, app, label, part="switches"):
     if not quiet:
         for name, flag, lvl in LEVELS:
             want = verb >= lvl
-            for stream, text in (("out", out), ("err", err)):
+            for stream, text in (("out", out), ("err", err), ("sec", out)):
                 present = (stream + "-" + name) in text
                 if present != want:
                     fail("C09.verbosity", {"line " + stream + "-" + name: want}, text, sig="lines")
